@@ -123,6 +123,7 @@ func (p *parser) parseStatement() ast.Statement {
 		p.scope.labels = append(p.scope.labels, label) // Push the label
 		statement := p.parseStatement()
 		p.scope.labels = p.scope.labels[:len(p.scope.labels)-1] // Pop the label
+		p.checkLabelledContinues(label, statement)
 		exp := &ast.LabelledStatement{
 			Label:     identifier,
 			Colon:     colon,
@@ -880,6 +881,7 @@ func (p *parser) parseContinueStatement() ast.Statement {
 		if !p.scope.inIteration {
 			goto illegal
 		}
+		p.labelledContinues = append(p.labelledContinues, labelledContinue{label: identifier.Name, idx: idx})
 		p.semicolon()
 		return &ast.BranchStatement{
 			Idx:   idx,
@@ -894,6 +896,35 @@ illegal:
 	p.error(idx, "Illegal continue statement")
 	p.nextStatement()
 	return &ast.BadStatement{From: idx, To: p.idx}
+}
+
+// checkLabelledContinues reports "continue label" statements inside statement
+// when label does not label an iteration statement (ES5 12.7).
+func (p *parser) checkLabelledContinues(label string, statement ast.Statement) {
+	target := statement
+	for {
+		inner, ok := target.(*ast.LabelledStatement)
+		if !ok {
+			break
+		}
+		target = inner.Statement
+	}
+	iteration := false
+	switch target.(type) {
+	case *ast.ForStatement, *ast.ForInStatement, *ast.WhileStatement, *ast.DoWhileStatement:
+		iteration = true
+	}
+	kept := p.labelledContinues[:0]
+	for _, cont := range p.labelledContinues {
+		if cont.label != label {
+			kept = append(kept, cont)
+			continue
+		}
+		if !iteration {
+			p.error(cont.idx, "Illegal continue statement")
+		}
+	}
+	p.labelledContinues = kept
 }
 
 // Find the next statement after an error (recover).
